@@ -63,6 +63,7 @@ ObsMatches(T, o) ==
 Coarse(op, res) ==
     CASE res = "retry" -> "retry"
       [] res = "empty" -> "empty"
+      [] res = "busy" -> "busy"
       [] res = "sizeerr" -> "err"
       [] res = "err" -> "err"
       [] res = "full" /\ op = "Recv" -> "err"
